@@ -11,6 +11,6 @@ CONSTANTS
   HWs <- MCHWsSmall
   Span = 4
 VIEW View
-INVARIANTS ShardInRange TimeIndependent AgentApiAgree HelpersAgree UnshardedReadsAll SecondaryDiffers HashInRange ConfigConsistent PrimaryIsOwner ReplicaOfShardAlive SpareDiffers SpareShared NoneOnlyIfDown FiledOwnSoon TickOwn Theorems
+INVARIANTS ShardInRange TimeIndependent AgentApiAgree HelpersAgree UnshardedReadsAll SecondaryDiffers HashInRange ConfigConsistent PrimaryIsOwner ReplicaOfShardAlive SpareDiffers SpareShared NoneOnlyIfDown FiledOwnSoon TickOwn AddressedToMe Theorems
 ACTION_CONSTRAINT Export
 CHECK_DEADLOCK FALSE
